@@ -15,6 +15,9 @@ CLAIMED = {
  "C12": ("c03.py --prop C12", "Rocq/Coq proof on the C03 dataset model: batchPartitioning + CVFolds read out exactly the consecutive slices of the reorganised element list with the requested validation sizes (validation parts disjoint and exhaustive), same-size folds differ by at most one, training part = complement (permutation theorem), createCVIndexed puts each element into exactly the requested fold in original order, batch sizes within [1,max]; for all datasets, fold counts, batch sizes, shuffles, index vectors. Tie: extracted model vs. all six createCV* functions of /repo on random datasets (dense, unsigned, sparse) with the drawn permutations read back; spec monitor checks partition/complement/size/balance/index membership/shape on the implementation output. Class balance of createCVSameSizeBalanced and element-shape preservation are monitored, not proved (partial).",
          "Trusted: as C03. The element shape is not part of the Coq model (compared in the correspondence run).",
          "Coq proof (slices lemma by induction over partitions) + extracted-model/implementation correspondence"),
+ "C20": ("c20", "Rocq/Coq proof + translator: (a) theorem race_free_b_sound — if the boolean checker accepts a parallel region summary then in every schedule (any assignment of iterations to T>=1 threads, any interleaving under one global lock) no two threads have overlapping unprotected accesses with a write and no thread-indexed array is overrun; two copies of the loop body suffice for every iteration count; (b) merge_schedule_independent — thread-local partial results merged inside the critical section in any order equal the sequential fold in a commutative monoid; (c) thread_ranges_tile — the static work split of ErrorFunction.inl covers every batch exactly once for every thread count; all axiom-free. Tie: tools/translate_omp.py regenerates the region summaries of all 22 SHARK_PARALLEL_FOR regions of the anchored files (+7 variants with a stochastic model) from /repo's current source via the clang JSON AST on every run and Coq re-decides race_free_b region_k = true for each; a coverage obligation checks that every textual SHARK_PARALLEL_FOR is instantiated. Runtime monitors (results for 1/2/3/7/16 threads and schedule(runtime) variants, TSan build in the thorough tier) turn a failed region obligation into a concrete witness.",
+         "Trusted: Coq kernel, the translator's reading of the clang AST and its hand-kept table for plugged-in components (const method with external State = read-only; random::globalRng = shared write), clang 14. Modelled not verified: the C++/OpenMP memory model and runtime, boost::shared_ptr reference counting (monitored only). Known finding C20-F7 (global RNG inside parallel regions) is listed in known_findings.json.",
+         "Coq proof (soundness of a race checker over all schedules; permutation-invariance of merges) + source-to-model translator re-run on every check"),
 }
 
 REASONS_TODO = "not claimed yet in this revision: the Coq model and its correspondence check for this property are still being built (see DESIGN.md section 3); no check is registered so nothing is asserted about it"
